@@ -72,6 +72,7 @@ type Outcome struct {
 	CT      string      `json:"ct,omitempty"`      // content type, "" => text/plain
 	Headers [][2]string `json:"headers,omitempty"` // raw: header lines in order
 	ETag    string      `json:"etag,omitempty"`    // "" none | same (one strong validator per key) | ver (changes with every fetch)
+	Enc     string      `json:"enc,omitempty"`     // upstream Content-Encoding: "" | gzip | gzip-broken (truncated stream, Content-Encoding gzip)
 }
 
 type Op struct {
@@ -172,6 +173,10 @@ func setup(t *testing.T) {
 // applyCfg (re)configures caches, locations and servers for one case, by the
 // same exported Reset functions main.update uses.
 func applyCfg(cfg Cfg, tag string) (cacheNames [2]string) {
+	return applyCfgExtra(cfg, tag, false)
+}
+
+func applyCfgExtra(cfg Cfg, tag string, extra bool) (cacheNames [2]string) {
 	size := cfg.CacheSize
 	if size <= 0 {
 		size = 1000
@@ -188,6 +193,9 @@ func applyCfg(cfg Cfg, tag string) (cacheNames [2]string) {
 			cc.Store = "verifmem://" + n
 		}
 		caches = append(caches, cc)
+	}
+	if extra {
+		caches = append(caches, config.CacheConfig{Name: "unrelated-" + tag, Size: 10, HitForPass: "1m"})
 	}
 	cache.ResetDispatchers(caches)
 	loc := config.LocationConfig{Name: "simloc", Upstream: upName}
@@ -217,6 +225,7 @@ type upReq struct {
 	Ended    bool
 	EndKind  string // outcome kind | "timeout"
 	Out      *Outcome
+	Sent     http.Header // the end-to-end headers of the answer
 	ch       chan *Outcome
 	Deadline int64 // ms, 0 = none
 }
@@ -248,6 +257,7 @@ type clientRec struct {
 }
 
 type world struct {
+	tag       string
 	mu        sync.Mutex
 	t0        time.Time
 	keys      []Key
@@ -383,6 +393,16 @@ func filler(n int, serial int) []byte {
 	if n <= 0 {
 		return nil
 	}
+	if n >= 5000 {
+		// poorly compressible text (hex noise): stays above the 1 KiB threshold once compressed
+		b := make([]byte, n)
+		x := uint64(serial)*2862933555777941757 + 3037000493
+		for i := range b {
+			x = x*2862933555777941757 + 3037000493
+			b[i] = "0123456789abcdef"[x>>60]
+		}
+		return b
+	}
 	// compressible text, varies with serial
 	unit := []byte(fmt.Sprintf("lorem ipsum %d dolor sit amet ", serial))
 	b := make([]byte, 0, n+len(unit))
@@ -447,7 +467,20 @@ func buildResponse(req *http.Request, u *upReq, out *Outcome) *http.Response {
 	var body []byte
 	if req.Method != http.MethodHead {
 		body = append([]byte(line+"\n"), filler(out.BodyLen, u.Serial)...)
+		if out.Enc == "gzip" || out.Enc == "gzip-broken" {
+			var zb bytes.Buffer
+			zw := gzip.NewWriter(&zb)
+			_, _ = zw.Write(body)
+			_ = zw.Close()
+			body = zb.Bytes()
+			if out.Enc == "gzip-broken" && len(body) > 12 {
+				body = body[:len(body)-9] // trailer and the end of the deflate stream are missing
+			}
+			h.Set("Content-Encoding", "gzip")
+		}
 	}
+	h.Set("Vary", "Accept-Encoding, X-Client-Kind") // a value with a comma, like every HTTP date
+	u.Sent = h.Clone()
 	resp := &http.Response{
 		StatusCode: status, Status: strconv.Itoa(status) + " " + http.StatusText(status),
 		Proto: "HTTP/1.1", ProtoMajor: 1, ProtoMinor: 1, Header: h, Request: req,
@@ -752,7 +785,7 @@ func runScenario(t *testing.T, sc Scenario, m *model) (tr *trace) {
 	}
 	caseSeq++
 	tag := strconv.Itoa(caseSeq)
-	w := &world{keys: sc.Keys, goids: map[int64]int{}}
+	w := &world{keys: sc.Keys, goids: map[int64]int{}, tag: tag}
 	defer func() {
 		if r := recover(); r != nil {
 			tr.Deadlock = fmt.Sprint(r)
@@ -974,6 +1007,12 @@ func (w *world) execOp(i int, op Op, m *model, tr *trace) {
 		default:
 		}
 		m.purged(i, op, returned, w.snapshot(i))
+	case "reload":
+		// a configuration reload that leaves everything as it is (plus an unrelated
+		// cache): the call sequence of main.update for caches, locations, servers
+		applyCfgExtra(tr.Scenario.Cfg, w.tag, true)
+		synctest.Wait()
+		m.step(i, "advance", nil, w.snapshot(i))
 	case "fault":
 		m.noteFault(op)
 		for _, s := range w.stores {
